@@ -189,7 +189,7 @@ def training(rep, tier, rng):
     from sparseSpACE.GridOperation import Regression
     cases = [(1, 'random', 0.0, 'C', 1, 3), (2, 'random', 0.0, 'C', 1, 3), (2, 'random', 0.01, 'I', 1, 3), (2, 'lattice', 0.01, 'C', 1, 3), (2, 'random', 0.1, 'C', 2, 3), (1, 'lattice', 0.001, 'C', 1, 4)]
     if tier == 'thorough':
-        cases += [(3, 'random', 0.01, 'I', 1, 3), (2, 'lattice', 0.0, 'C', 1, 4), (3, 'random', 0.0, 'C', 1, 2), (2, 'random', 1.0, 'C', 1, 4), (1, 'random', 0.1, 'I', 2, 5)]
+        cases += [(3, 'random', 0.01, 'I', 1, 3), (3, 'random', 0.01, 'C', 1, 4), (2, 'lattice', 0.0, 'C', 1, 4), (3, 'random', 0.0, 'C', 1, 2), (2, 'random', 1.0, 'C', 1, 4), (1, 'random', 0.1, 'I', 2, 5)]
     for D, kind, lam, mat, lmin, lmax in cases:
         X, y = datasets(rng, D, 60 if D < 3 else 90, kind)
         name = 'D=%d %s data lambda=%s matrix=%s levels (%d,%d)' % (D, kind, lam, mat, lmin, lmax)
@@ -255,10 +255,23 @@ def run(tier, seed):
     if r.violated:
         raise tlc.TLCError('HatSystems.tla violates %s' % r.violated)
     states = [g.states[k] for k in sorted(g.states)]
+    # three dimensions: uniform grids of levels 1 and 2 (pair loops that are banded in one and two dimensions are not in three)
+    cfg3 = ('SPECIFICATION Spec\nCONSTANTS LAT = %d\n GRIDS <- MCGrids3\n DATASETS <- MCData3\n MAXD = 3\nINVARIANT C16_Symmetric\nINVARIANT C20_StiffSemiPositive\nCHECK_DEADLOCK FALSE\n' % LAT)
+    r3, g3 = tlc.run('MC_HatSystems', cfg3, 'c20d3', dump=True, timeout=3000)
+    rep.tlc('HatSystems (stiffness) three dimensions', r3)
+    if r3.violated:
+        raise tlc.TLCError('HatSystems.tla violates %s (D=3)' % r3.violated)
+    seen3 = set()
+    for k in sorted(g3.states):
+        st3 = g3.states[k]
+        key3 = json.dumps([list(x) for x in st3['grid']])
+        if st3['dim'] == 3 and key3 not in seen3:
+            seen3.add(key3)
+            states.append(st3)
     matrices(rep, states, tier, rng)
     rep.cov['spec_states_tested_on_impl'] = len(states)
     training(rep, tier, rng)
-    rep.cov['rule'] = ('(A) every grid state of HatSystems.tla (D=1,2 tensor grids of refinement-tree grids): smoothing and design matrices of the uniform and dimension-wise variants against '
+    rep.cov['rule'] = ('(A) every grid state of HatSystems.tla (D=1,2 tensor grids of refinement-tree grids, D=3 uniform grids of levels 1-2): smoothing and design matrices of the uniform and dimension-wise variants against '
                        'the exact values; (B) default-constructed Regression objects trained with both strategies on random and integer-lattice data for several (lambda, matrix, level range): '
                        'normal-equation residual per component grid, three coefficient optimisation variants; distinct by (grid) / (case, strategy, variant)')
     rep.assumptions += ['TLC/SANY', 'float comparison 1e-10 with the spec rationals; normal-equation residual 1e-8 relative', 'train/validation split as done by the library (random_state=1)']
